@@ -42,6 +42,8 @@ def gen_case(rng, idx, first=None):
             # mode of the float model handed to MPS(): every sub-module of the wrapper must come back in that mode.  'as-returned':
             # handed in in eval mode and used exactly as MPS() returns it (no .eval()/.train() call before the comparison)
             'handin': rng.choice(['eval', 'eval', 'train']),
+            # learned quantizer parameters (PACT clip values) moved away from their initial value before summary()/export()
+            'clip': rng.choice([None, 'copy_', 'copy_', 'sgd']),
             # export() called again (1-2 more times) on the same MPS object after coefficient / weight changes written in several ways
             'rounds': [{'what': rng.choice(['alpha', 'alpha', 'weight', 'both']), 'fwd': rng.random() < 0.4,
                         'how': rng.choice(['copy_', 'data=', 'data.copy_', 'data[i]=', 'optimizer', 'load_state_dict'])} for _ in range(rng.choice([0, 0, 1, 1, 2]))],
@@ -116,6 +118,28 @@ def run_case(c):
             orig_state = {k: v.clone() for k, v in orig.state_dict().items()}
             stage = 'convert'
         G.set_alphas(rng, p)            # (the copy's coefficients change after the copy was taken)
+        # quantizer parameters as after some training: every learned clip value (PACT) moved away from its initial value
+        cl = c.get('clip')
+        if cl:
+            crng = random.Random(c['aseed'] ^ 0xc11b)
+            clips = [(n_, q_) for n_, q_ in p.named_parameters() if n_.endswith('clip_val')]
+            seen_c = set()
+            clips = [(n_, q_) for n_, q_ in clips if not (id(q_) in seen_c or seen_c.add(id(q_)))]
+            tgt = [torch.full_like(q_, round(crng.uniform(0.5, 10.0), 3)) for _, q_ in clips]
+            if cl == 'sgd':
+                opt = torch.optim.SGD([q_ for _, q_ in clips], lr=0.5)
+                for _ in range(2):          # two optimizer steps that together reach the target
+                    opt.zero_grad()
+                    for (_, q_), t_ in zip(clips, tgt):
+                        q_.grad = (q_.detach() - t_)
+                    opt.step()
+                for (_, q_), t_ in zip(clips, tgt):
+                    q_.data.copy_(t_)
+            else:
+                with torch.no_grad():
+                    for (_, q_), t_ in zip(clips, tgt):
+                        q_.copy_(t_)
+            obs['clips_set'] = len(clips)
         L = G.mps_layers(nodes, p)
         seed = p.seed
         name2node = {str(n.target): n for n in seed.graph.nodes if n.op == 'call_module'}
@@ -459,7 +483,7 @@ def run(ctx):
     built = ctx.build()
     ctx.rule = ('grammar networks of vlib/mps_gen.py (1..4 blocks of conv / conv-BN / depthwise / residual add of (x, conv x), of two convs, of a depthwise chain with its source / pooling, head pool-flatten-linear(-BN)-linear; '
                 'depthwise / residual blocks forced first in half of the cases, all conv biases on in 60%) x precision tuples from {2,4,8} (1..3, any order) for activations and weights x random alpha with arg-max margin >= 0.05 '
-                'x temperature in [0.05,20] (both ends forced) x gumbel/hard/disable_shared_quantizers/pre-training-forward flags x conv padding_mode {zeros, circular, reflect, replicate} with padding > 0, paddings int / same / valid, same-padding with even and mixed kernels (2, 4, (2,3), (3,2)) x dilation 1..3 (also inside residual adds) x model under test {the MPS model, a copy.deepcopy / pickle round trip of it taken after construction / in training mode / after a coefficient change, coefficients of the copy changed afterwards; original must stay untouched} x export() repeated 0-2 more times on the same object after coefficient / weight changes written via copy_, .data=, .data.copy_, .data[i]=, an optimizer step or load_state_dict x mode of the float model handed in {eval, train}: every sub-module must come back in that mode x moment of summary()+export() {on the wrapper exactly as returned for an eval-mode model (no .eval()/.train() call), after an eval forward, right after training-mode Gumbel forwards, after a coefficient update without forward} x schedule of 2-3 further forward passes (same / new batch, mode toggles) through the same exported model; where a layer input quantizer is not its producer output quantizer object the two are made to select different precisions. '
+                'x temperature in [0.05,20] (both ends forced) x gumbel/hard/disable_shared_quantizers/pre-training-forward flags x conv padding_mode {zeros, circular, reflect, replicate} with padding > 0, paddings int / same / valid, same-padding with even and mixed kernels (2, 4, (2,3), (3,2)) x dilation 1..3 (also inside residual adds) x model under test {the MPS model, a copy.deepcopy / pickle round trip of it taken after construction / in training mode / after a coefficient change, coefficients of the copy changed afterwards; original must stay untouched} x export() repeated 0-2 more times on the same object after coefficient / weight changes written via copy_, .data=, .data.copy_, .data[i]=, an optimizer step or load_state_dict x learned PACT clip values {initial, moved to random values in [0.5,10] by copy_ / optimizer steps} x mode of the float model handed in {eval, train}: every sub-module must come back in that mode x moment of summary()+export() {on the wrapper exactly as returned for an eval-mode model (no .eval()/.train() call), after an eval forward, right after training-mode Gumbel forwards, after a coefficient update without forward} x schedule of 2-3 further forward passes (same / new batch, mode toggles) through the same exported model; where a layer input quantizer is not its producer output quantizer object the two are made to select different precisions. '
                 'one case = one network with one coefficient assignment; distinct by (architecture, precisions, selected indices); non-trivial = at least two candidate precisions somewhere and at least 2 searchable layers')
     n = 260 if ctx.quick else 2600
     cases = []
@@ -490,6 +514,9 @@ def run(ctx):
         ctx.dist['nprec_a:%d' % len(c['ap'])] += 1
         ctx.dist['conv%dd' % c['nodes'][0].get('dim', 2)] += 1
         ctx.dist['seq:' + c.get('seq', 'eval')] += 1
+        ctx.dist['clip-values:%s' % (c.get('clip') or 'initial')] += 1
+        if c.get('clip') and any(nd['k'] == 'add' for nd in c['nodes']):
+            ctx.dist['moved-clip-values-with-residual-add'] += 1
         for rd in o.get('rounds', []):
             ctx.dist['re-export:%s:%s' % (rd['what'], rd['how'])] += 1
         for nd in c['nodes']:
@@ -593,6 +620,7 @@ def replay(r):
     o = run_case(c)
     print('network:', [nd['k'] for nd in c['nodes']])
     print('model under test:', ('%s of the MPS model taken at: %s' % (c['copy']['how'], c['copy']['at'])) if c.get('copy') else 'the MPS model itself')
+    print('PACT clip values:', c.get('clip') or 'initial')
     print('summary()/export() called:', c.get('seq', 'eval'), '| padding modes:', sorted({nd.get('pm', 'zeros') for nd in c['nodes'] if nd['k'] in ('conv', 'dw')}))
     print('activation precisions', c['ap'], 'weight precisions', c['wp'], 'T', c['T'], 'gumbel', c['gumbel'], 'hard', c['hard'], 'disable_shared_quantizers', c['dsq'])
     print('property requires: MPS.eval()(x) == MPS.export().eval()(x) bit for bit; exported precisions == summary(); input precision of a layer == output precision of the producer of its input')
